@@ -696,9 +696,8 @@ PROPS["C15"] = dict(
     level="exploration",
     technique="round-trip / differential property-based testing (rapidcheck): generated programs are built through the API and, independently, printed as .orc text with randomised formatting and literal spellings, parsed, and compared structurally and by emulation",
     level_text=("generated files of 1..3 functions (full opcode set, all directive kinds) printed with random spacing, tabs, comments, blank "
-                "lines, variable names from a pool of number-like and keyword-like identifiers (nan, inf, infinity, info, x2, n, dest ...) in a third of the functions, "
-                "
-                "lines, LF/CRLF/mixed endings, decimal/hex/octal/negative/float/L-suffixed literals, inline literal operands, type names "
+                "lines, variable names from a pool of number-like and keyword-like identifiers (nan, inf, infinity, info, x2, n, dest ...) in a "
+                "third of the functions, LF/CRLF/mixed endings, decimal/hex/octal/negative/float/L-suffixed literals, inline literal operands, type names "
                 "and alignments; every parsed program is compared with its API-built twin field by field and by emulation on random "
                 "inputs. Sampled, not exhaustive"),
     level_note=("trusted base: the printer in props/c15_text.c (written from doc/ and the directive handlers' accepted grammar), the "
